@@ -88,4 +88,5 @@ Definition run_doc (c : ds_consts) (name : list byte) (d : pstate_data) (arg : l
   let n := string_of_list_byte name in
   let st := mk_pstate d in
   if seq n "cgroup" then cgroup_doc c st arg sz
+  else if seq n "rpname" then rpname_ds c (S (length (d_status d))) st sz      (* Procfs.rpname_root: the walk is the root ancestor's name *)
   else documented c st arg sz n.
